@@ -315,13 +315,14 @@ def judge_batch(case):
     raw = [fn(r[1], env) if r[0] == "ok" else None for r, env, fn in prepared]  # back to back, nothing of the harness in between
     parent = [["compile-error", r[1]] if r[0] != "ok" else _canon(o) for (r, env, fn), o in zip(prepared, raw)]
     tmp = tempfile.mkdtemp(prefix="pyab_c01_")
+    env_keys = set()
     try:
         path = os.path.join(tmp, "batch.json")
         with open(path, "w", encoding="ascii") as f:
             json.dump([{"text": it["text"], "inputs": it["inputs"], "positional": bool(it.get("positional"))} for it in items], f, ensure_ascii=True)
         procs = []
         for ci in case["configs"]:
-            cfg = CONFIGS[ci]
+            cfg = CONFIGS[ci] if isinstance(ci, int) else ci
             env = {k: v for k, v in os.environ.items() if not k.startswith(("LC_", "LANG", "PYTHON"))}
             env.update({k: v for k, v in cfg.items() if k != "cwd" and v != ""})
             env["PYTHONCOERCECLOCALE"] = "0"
@@ -340,12 +341,14 @@ def judge_batch(case):
         for ci, p in procs:
             so, se = p.communicate()
             if p.returncode != 0:
-                raise runner.HarnessError("child interpreter failed (config %r): %s" % (CONFIGS[ci], se.decode("ascii", "replace")[-800:]))
+                raise runner.HarnessError("child interpreter failed (config %r): %s" % (ci, se.decode("ascii", "replace")[-800:]))
             tr = json.loads(so.decode("ascii"))
+            env_keys.update(tr.get("env_keys", []))
+            extra = "" if isinstance(ci, int) else " with environment %r" % ({k: v for k, v in ci.items() if k not in CONFIGS[0]},)
             for it, a, b in zip(items, parent, tr["results"]):
                 if a != b:
-                    viol.append("process-dependent result: this process %r, child (PYTHONHASHSEED=%s, locale=%s, cwd=%s) %r | inputs=%r | %s"
-                                % (a, tr["hashseed"], tr["locale"], tr["cwd"], b, common.short_env(M.dec_inputs(it["inputs"])), it["text"]))
+                    viol.append("process-dependent result: this process %r, child (PYTHONHASHSEED=%s, locale=%s, cwd=%s)%s %r | inputs=%r | %s"
+                                % (a, tr["hashseed"], tr["locale"], tr["cwd"], extra, b, common.short_env(M.dec_inputs(it["inputs"])), it["text"]))
                     if len(viol) >= 4:
                         break
     finally:
@@ -354,11 +357,14 @@ def judge_batch(case):
         shutil.rmtree(tmp, ignore_errors=True)
     keys = [[it["text"], it["inputs"]] for it in items if it["multi"]]
     return {"viol": viol[:4], "nontrivial": bool(keys), "tags": ["cross-process", "children:%d" % len(case["configs"])],
-            "key": keys, "multi_keys": keys, "sample": {"batch_size": len(items), "configs": [CONFIGS[c] for c in case["configs"]],
+            "key": keys, "multi_keys": keys, "env_keys": sorted(env_keys),
+            "sample": {"batch_size": len(items), "configs": [CONFIGS[c] if isinstance(c, int) else c for c in case["configs"]],
                                                         "first_item": {"text": items[0]["text"][:200], "inputs": M.dec_inputs(items[0]["inputs"])} if items else None}}
 
 
 def judge_case(record):
+    if record.get("part") == "texts-that-differ-only-in-lone-surrogates":
+        return judge_if_accepted(record["case"])["viol"]
     c = record["case"]
     return (judge_batch(c) if "batch" in c else judge(c))["viol"]
 
@@ -402,6 +408,32 @@ def fixed_histories():
         for j in range(len(NOISE)):
             ops += [["noise", 0, 0, j], ["call", j % 3, 0, j]]
         yield {"sources": [prog, prog], "inputs": [inputs, inputs], "ops": ops, "plain": True}
+
+
+def judge_if_accepted(case):
+    """texts the library may refuse outright (lone surrogates cannot be encoded for the change-detection checksum): refused by a
+    fresh evaluator -> nothing to compare; accepted -> they are sources like any other and the whole history must hold"""
+    for t in case["texts"]:
+        if sut.compile_text(t)[0] != "ok":
+            return {"viol": [], "nontrivial": False, "tags": ["text-refused-by-the-library"], "key": case["texts"]}
+    return judge(case)
+
+
+def surrogate_histories():
+    """pairs of texts that differ only in lone-surrogate code points (files read with errors='surrogateescape'): in a group
+    name, in the salt, in a comment"""
+    body = M.ret([(M.lit_str("A"), "1"), (M.lit_str("B"), "1")])
+    prog = M.program("exp", body, splitters=["uid"])
+    inputs = [M.enc_inputs({"uid": "u%d" % i}) for i in range(12)]
+    pairs = [('def exp { splitters: uid return "ctl\udc80" weighted 1, "B" weighted 1 }', 'def exp { splitters: uid return "ctl\udc81" weighted 1, "B" weighted 1 }'),
+             ('def exp { salt: "s\udc80" splitters: uid return "A" weighted 1, "B" weighted 1 }', 'def exp { salt: "s\udcff" splitters: uid return "A" weighted 1, "B" weighted 1 }'),
+             ('def exp { splitters: uid return "A" weighted 1, "B" weighted 1 } // \udc80', 'def exp { splitters: uid return "A" weighted 3, "B" weighted 1 } // \udc81'),
+             ('def exp { splitters: uid return "\ud800" weighted 1, "B" weighted 1 }', 'def exp { splitters: uid return "?" weighted 1, "B" weighted 1 }')]
+    for a, b in pairs:
+        ops = [["call", 0, 0, i] for i in range(12)] + [["call", 1, 1, i] for i in range(12)]
+        ops += [["recompile", 0, 1, 0]] + [["call", 0, 1, i] for i in range(12)] + [["recompile", 0, 0, 0]] + [["call", 0, 0, i] for i in range(12)]
+        ops += [["cycle", 1, 0, 3], ["cycle_nocall", 0, 1, 4]] + [["call", 1, 1, i] for i in range(12)] + [["call", 0, 0, i] for i in range(12)]
+        yield {"texts": [a, b], "sources": [prog, prog], "inputs": [inputs, inputs], "ops": ops, "plain": True}
 
 
 def burst_histories():
@@ -481,6 +513,9 @@ def run(ctx, rec):
         runner.direct_run(ctx, rec, "fixed-histories", fixed_histories(), judge)
         if rec.violations:
             return
+        runner.direct_run(ctx, rec, "texts-that-differ-only-in-lone-surrogates", surrogate_histories(), judge_if_accepted)
+        if rec.violations:
+            return
         runner.direct_run(ctx, rec, "bursts", burst_histories(), judge)
         if rec.violations:
             return
@@ -515,7 +550,7 @@ def run(ctx, rec):
                 if "plan" in env:
                     env["plan"] = ["pro", "free"][u % 2]
                 fixed_items.append({"text": text, "inputs": M.enc_inputs(env), "multi": True, "positional": True})
-        v = judge_batch({"batch": fixed_items, "configs": list(range(len(CONFIGS)))})
+        v = judge_batch({"batch": fixed_items, "configs": list(range(len(CONFIGS))) + [dict(CONFIGS[0], PYAB_ENVSPY="1")]})
         rec.evaluations += 1
         rec.count("fixed-cross-process")
         for k in v.pop("multi_keys", []):
@@ -523,6 +558,18 @@ def run(ctx, rec):
         if v["viol"]:
             rec.violation("fixed-cross-process", {"batch": fixed_items, "configs": list(range(len(CONFIGS)))}, v["viol"])
             return
+        # the host's environment is no input of an experiment: every variable the library was seen to consult (none at all on the
+        # pinned tree) is set to a few plausible values in further children
+        from .. import envspy
+
+        rec.count("environment-variables-consulted-by-the-library", len(v["env_keys"]))
+        if v["env_keys"]:
+            confs = [dict(CONFIGS[0], **{k: val}) for k in v["env_keys"][:6] for val in envspy.VALUES]
+            v2 = judge_batch({"batch": fixed_items, "configs": confs})
+            rec.evaluations += 1
+            if v2["viol"]:
+                rec.violation("fixed-cross-process-environment", {"batch": fixed_items, "configs": confs}, v2["viol"])
+                return
 
     def jb(case):
         v = judge_batch(case)
